@@ -15,7 +15,7 @@
    flight and <= MaxDup identical copies of a message in flight (state constraint).         *)
 EXTENDS Raft, ReplLog, SequencesExt, Json
 
-CONSTANTS N, Timed, MaxTerm, MaxEl, MaxHb, MaxReq, MaxNet, MaxDup, MaxBatch, EMIT, Depth
+CONSTANTS N, Timed, ReqAt, MaxTerm, MaxEl, MaxHb, MaxReq, MaxNet, MaxDup, MaxBatch, EMIT, Depth
 
 VARIABLES st,      \* [Mem(N) -> member record]
           net,     \* bag of messages in flight: function msg -> count
@@ -45,7 +45,7 @@ Init ==
     /\ panic = ""
     /\ hist = <<>>
     /\ MInit(N)
-    /\ \A reg \in 11..21 : TLCSet(reg, 0)
+    /\ \A reg \in 11..22 : TLCSet(reg, 0)
 
 Inbox(m) == {x \in DOMAIN net : x.dst = m}
 
@@ -74,7 +74,8 @@ Step(m, B, el, hbt, nr) ==
        /\ panic' = r.panic
        /\ chosen' = mon[1]
        /\ hi' = [hi EXCEPT ![m] = mon[2]]
-       /\ flags' = mon[3]
+       /\ flags' = IF CommitOnlyCurrentTerm(st[m], r.s) THEN mon[3]
+                   ELSE mon[3] \cup {"CommitOnlyCurrentTerm"}
        /\ claims' = IF r.s.role = 2 /\ (st[m].role # 2 \/ st[m].term # r.s.term)
                     THEN claims \cup {<<r.s.term, m>>} ELSE claims
        /\ hist' = IF EMIT THEN Append(hist, [m |-> m, el |-> IF el THEN 1 ELSE 0,
@@ -89,7 +90,7 @@ Tick(el, hbt, nr) ==
         /\ ~(B = {} /\ ~el /\ ~hbt /\ nr = 0)
         /\ el => m \in Timed /\ nel < MaxEl /\ (st[m].role # 2 \/ B # {}) /\ (st[m].term < MaxTerm \/ st[m].hb)
         /\ hbt => nhb < MaxHb /\ (st[m].role = 2 \/ (st[m].role = 1 /\ \E x \in B : x.k = 1))
-        /\ nr = 1 => (nreq < MaxReq /\ (st[m].role = 2 \/ (st[m].role = 1 /\ \E x \in B : x.k = 1)))
+        /\ nr = 1 => (m \in ReqAt /\ nreq < MaxReq /\ (st[m].role = 2 \/ (st[m].role = 1 /\ \E x \in B : x.k = 1)))
         /\ Step(m, B, el, hbt, nr)
 
 Live == panic = "" /\ (EMIT => Len(hist) < Depth)
@@ -133,7 +134,17 @@ Witness ==
     /\ Once(18, nhb > 0 /\ \E x \in DOMAIN net : x.k = 2, "heartbeat-broadcast")
     /\ Once(19, \E m \in Mem(N) : st[m].role # 2 /\ Len(st[m].log) > 0, "follower-appended")
     /\ Once(20, \E m \in Mem(N) : st[m].role = 2 /\ \E o \in Mem(N) : st[m].match[o] > 0, "ack-counted")
+    /\ Once(22, \E m \in Mem(N) : Fig8Situation(N, st[m], m),
+            "older-term-entry-on-majority-with-unacked-current-term-entry")
     /\ Once(21, \E m \in Mem(N) : st[m].role # 2 /\ st[m].ci > 0, "follower-learned-commit")
+
+(* directed generation (cfg: VIEW NoHist, EMIT = TRUE, invariant EmitFig8): breadth-first search
+   identifies states by everything but `hist`, so `hist` is ONE shortest behaviour leading to the
+   state; every state in which some leader is in the figure-8 situation prints its behaviour.   *)
+NoHist == <<st, net, nreq, nel, nhb, panic, mvars>>
+EmitFig8 ==
+    (EMIT /\ \E m \in Mem(N) : Fig8Situation(N, st[m], m)) =>
+        PrintT(<<"CASE", ToJson([n |-> N, steps |-> hist])>>)
 
 (* one line per behaviour of the simulation run (spec -> code replay input) *)
 Emit ==
